@@ -122,6 +122,38 @@ def build_execs(cases, rng, tier):
     return execs
 
 
+def huge_execs(tier):
+    """scales around and beyond the largest filter the 16.16 header can describe (32767 taps per axis): the call must
+       either return a well-formed block or refuse (NULL) -- the latter only where Filter!Unrepresentable holds."""
+    sup = KW
+    cases = []          # (rk, sk, scale, bits)
+    MAXS = 0x7fffffff
+    if tier == "quick":
+        cases = [(1, 1, MAXS, 0), (0, 1, 32767 * 65536, 0), (2, 7, MAXS, 0), (0, 7, (32767 * 65536) // 8, 1)]
+    else:
+        for rk, sk in ((0, 1), (1, 1), (2, 2), (0, 3), (4, 4), (5, 2), (6, 6), (0, 7), (3, 7), (7, 7)):
+            thr = int((32767 - sup[rk]) * 65536 // sup[sk])       # largest representable scale for this pair
+            for sc in (thr - 1, thr, thr + 1, thr + 65536, 1 << 30, 3 << 29, MAXS - 1, MAXS):
+                if 0 < sc <= MAXS:
+                    cases.append((rk, sk, sc, 0))
+            cases.append((rk, sk, thr, 1))
+            cases.append((rk, sk, min(MAXS, thr + 1), 2))
+        cases.append((1, 0, MAXS, 3))                               # sampling IMPULSE: never too wide
+    execs = []
+    for i, (rk, sk, sc, b) in enumerate(cases):
+        lines = ["R huge%d" % i]
+        for axis in ("x", "y"):
+            # the huge filter on one axis, a two-tap one on the other (a 32767 x 32767 matrix could not be rendered)
+            if axis == "x":
+                lines.append("C %d 2 %d 0 %d 65536 %d 1" % (rk, sk, sc, b))
+            else:
+                lines.append("C 2 %d 0 %d 65536 %d 1 %d" % (rk, sk, sc, b))
+            lines.append("S a8r8g8b8 3 2 255 200 100 1")
+            lines.append("D %d 4 2 65536 0 %d 0 65536 %d 0 0 65536" % (1 + i % 3, 1234 + 4099 * i, 777 + 13 * i))
+        execs.append({"name": "huge%d" % i, "lines": lines, "cost": 2 * 40000 * (1 << b), "calls": 2})
+    return execs
+
+
 def run_driver(exe, execs, wd, tag):
     """Execute a list of executions; a crash ends the process, the remaining executions are run by a new one.
        Returns the trace file (parts concatenated)."""
@@ -312,6 +344,8 @@ def count_events(chk, tracefile):
             chk.evaluations += 1
         elif line.startswith('{"e":"Create"') and cur is not None:
             ev = json.loads(line)
+            if not ev.get("ok"):
+                chk.extra["create_calls_refused_null"] = chk.extra.get("create_calls_refused_null", 0) + 1
             if ev.get("ok") and "hdr" in ev:
                 w, h = ev["hdr"][0][0], ev["hdr"][1][0]
                 # one case per axis; non-trivial when the table has at least two taps per phase
@@ -386,6 +420,9 @@ def run(prop, args):
     chk.add_tlc(r, "case enumeration (FilterGen, breadth-first)")
     chk.extra["tlc_enumerated_axis_cases"] = len(cases)
     execs = build_execs(cases, rng, args.tier)
+    huge = huge_execs(args.tier)
+    execs += huge
+    chk.extra["huge_scale_executions"] = len(huge)
     chk.extra["executions"] = len(execs)
     chk.extra["create_calls_scripted"] = sum(e["calls"] for e in execs)
     chk.sample({"execution_script": execs[len(execs) // 3]["lines"]})
@@ -426,6 +463,8 @@ def run(prop, args):
     chk.assumptions += [
         "scales enumerated: " + ", ".join("%d/65536" % s for s in (SCALES_QUICK if quick else SCALES_ALL)) +
         " plus seeded random scales below 64; the statement's 'all positive 16.16 scales' is sampled, not enumerated",
+        "a NULL return is accepted only where an axis needs 32768 or more taps (kernel supports 0/1/2/4/5/4/6/8 pixels, "
+        "Filter!Unrepresentable): the 16.16 header cannot describe such a filter",
         "rendering obligation: |out - c| <= (c*ceil(w*h/2) + 32768) div 65536 per channel (0, i.e. exact, for w*h <= 256); "
         "narrow (8-bit) pipeline, repeat NORMAL/PAD/REFLECT, 8-bit-per-channel source formats",
         "out-of-bounds writes are observed by AddressSanitizer (heap redzones), not by the specification",
